@@ -157,6 +157,15 @@ class Parser:
                     break
             self.expect(")")
             return N("ttuple", items=items)
+        if self.at("<") and self.peek().kind == "p":
+            # `<T as Trait>::Name`
+            self.next()
+            q = self.type_()
+            self.expect("as")
+            self.type_()
+            self.expect(">")
+            self.expect("::")
+            return N("tpath", segs=[("<qself>", [q]), (self.ident(), [])])
         if self.peek().kind != "id" or self.peek().text in ("impl", "dyn", "fn", "for", "mut", "const"):
             self.fail("expected a (path / reference / slice / tuple) type")
         segs = []
@@ -494,6 +503,16 @@ class Parser:
                 self.expect("|")
             body = self.expr()
             return N("closure", params=params, body=body)
+        if t.kind == "p" and t.text == "<":
+            # `<T as Trait>::name`: the associated item `name` of T
+            self.next()
+            q = self.type_()
+            self.expect("as")
+            self.type_()
+            self.expect(">")
+            self.expect("::")
+            head = type_head(q)
+            return N("path", segs=[head, self.ident()])
         if t.kind != "id":
             self.fail("unsupported expression")
         if t.text in ("true", "false"):
@@ -544,7 +563,14 @@ class Parser:
         while self.at("::"):
             self.next()
             if self.at("<"):
-                self.fail("turbofish (explicit generic arguments)")
+                # turbofish: explicit generic arguments are dropped (the Model is monomorphic)
+                self.next()
+                while not self.at(">"):
+                    self.type_()
+                    if not self.accept(","):
+                        break
+                self.expect(">")
+                continue
             segs.append(self.ident())
         if self.at("!") and self.peek(1).kind == "p" and self.peek(1).text in ("(", "[", "{"):
             self.next()
@@ -573,6 +599,10 @@ class Parser:
 
 # =============================================================================== items
 
+CONSTS = {}    # file -> {const name: initialiser tokens}
+STRUCTS = {}   # file -> {struct name: [field names]}
+
+
 class FnItem:
     def __init__(self, file, impl_type, impl_trait, trait_args, name, generics, params, ret, body_toks, self_kind, line):
         self.file, self.impl_type, self.impl_trait, self.trait_args = file, impl_type, impl_trait, trait_args
@@ -583,6 +613,18 @@ class FnItem:
     def where(self):
         owner = (self.impl_type + "::") if self.impl_type else ""
         return f"{self.file}::{owner}{self.name}"
+
+
+def from_desc(ty):
+    """(`&mut T`-style description, name suffix) of the source type of an `impl From<…>`"""
+    pre, suf = "", ""
+    while ty.kind == "tref":
+        pre += "&mut " if ty.mut else "&"
+        suf += "mut_" if ty.mut else "ref_"
+        ty = ty.inner
+    head = type_head(ty)
+    suf = "" if suf == "ref_" else suf     # a single `&` is not part of the name
+    return pre + head, suf + head
 
 
 def type_head(ty):
@@ -602,6 +644,7 @@ def parse_items(file):
     """all fn items of a source file (with their impl context) and all enum declarations"""
     toks = T.load(file)
     fns, enums = [], {}
+    consts, structs = CONSTS.setdefault(file, {}), STRUCTS.setdefault(file, {})
 
     def fn_at(p, impl_type, impl_trait, trait_args):
         # p.i at `fn`
@@ -747,6 +790,51 @@ def parse_items(file):
                     break
             p.expect("}")
             enums[name] = variants
+        elif p.at("const") and p.peek(1).kind == "id" and p.at(":", 2):
+            p.next()
+            name = p.ident()
+            p.next()
+            start = p.i
+            while not p.at("=") :
+                p.next()
+            p.next()
+            start = p.i
+            while not p.at(";"):
+                if p.peek().kind == "p" and p.peek().text in T.OPEN:
+                    p.i = T.match_close(p.t, p.i)
+                p.next()
+            consts[name] = p.t[start:p.i]
+        elif p.at("struct") and p.peek(1).kind == "id":
+            p.next()
+            name = p.ident()
+            p.where = file + "::struct " + name
+            p.generics_decl()
+            if p.at("{"):
+                end = T.match_close(p.t, p.i)
+                p.next()
+                names = []
+                while p.i < end:
+                    if p.at("#"):
+                        skip_attr(p)
+                        continue
+                    if p.accept("pub"):
+                        if p.at("("):
+                            p.i = T.match_close(p.t, p.i) + 1
+                    names.append(p.ident())
+                    p.expect(":")
+                    angle = 0
+                    while p.i < end and not (angle == 0 and p.at(",")):
+                        if p.peek().kind == "p" and p.peek().text in ("(", "["):
+                            p.i = T.match_close(p.t, p.i)
+                        elif p.at("<"):
+                            angle += 1
+                        elif p.at(">"):
+                            angle -= 1
+                        p.next()
+                    if not p.accept(","):
+                        break
+                structs[name] = names
+                p.i = end + 1
         elif p.at("fn") and p.peek(1).kind == "id":
             f = fn_at(p, None, None, [])
             if f:
@@ -903,12 +991,17 @@ def mkseq(stmts, final):
 
 # Rust type name -> Lean type of the Model (generic parameter `NumericTypes` is fixed to DefaultNumericTypes)
 TYPE_MAP = {
-    "usize": "Nat", "bool": "Bool", "String": "Str", "str": "Str", "i64": "Int64", "f64": "Float",
+    "usize": "Nat", "u64": "UInt64", "u32": "UInt32", "bool": "Bool", "DefaultNumericTypes": "Unit", "String": "Str", "str": "Str", "i64": "Int64", "f64": "Float",
     "Value": "Value", "ValueType": "ValueType", "Operator": "Operator", "Node": "Node", "EvalexprError": "Err",
     "TupleType": "(List Value)", "EmptyType": "Unit", "Int": "Int64", "Float": "Float",
     "HashMapContext": "HashMapCtx", "EmptyContext": "Unit", "EmptyContextWithBuiltinFunctions": "Unit",
     "Function": "UserFn",
+    # `Self` of the default methods of these traits: any context
+    "ContextWithMutableVariables": "Ctx", "ContextWithMutableFunctions": "Ctx",
 }
+# associated iterator types of IterateVariablesContext: an iterator is the list of the items it yields (for a HashMap: in
+# the order of the Model's association list; Rust leaves the order unspecified)
+ASSOC_TYPE_MAP = {"VariableIterator": "List (Str × Value)", "VariableNameIterator": "List Str"}
 GENERIC_TYPE_MAP = {"Vec": "List", "Option": "Option"}
 
 LEAN_KEYWORDS = {
@@ -977,6 +1070,8 @@ FIELD_MAP = {("Node", "operator"): "Evalexpr.Node.op", ("Node", "children"): "Ev
              ("HashMapContext", "variables"): "Evalexpr.HashMapCtx.vars", ("HashMapContext", "functions"): "Evalexpr.HashMapCtx.funs",
              ("HashMapContext", "without_builtin_functions"): "Evalexpr.HashMapCtx.noBuiltins"}
 
+# structs built by a struct literal: Rust struct -> (Lean constructor, Rust field names in constructor order)
+STRUCT_MAP = {"HashMapContext": ("HashMapCtx.mk", ["variables", "functions", "without_builtin_functions"])}
 FIELD_UPDATE = {("HashMapContext", "variables"): "vars", ("HashMapContext", "functions"): "funs",
                 ("HashMapContext", "without_builtin_functions"): "noBuiltins"}
 
@@ -990,16 +1085,35 @@ CTX_METHODS = {
 }
 # other methods, by (name, number of arguments): Lean function (receiver first)
 BOUNDARY_METHODS = {
-    ("checked_add", 1): "Evalexpr.checkedAdd", ("checked_sub", 1): "Evalexpr.checkedSub",
-    ("checked_mul", 1): "Evalexpr.checkedMul", ("checked_div", 1): "Evalexpr.checkedDiv",
-    ("checked_rem", 1): "Evalexpr.checkedRem", ("checked_neg", 0): "Evalexpr.checkedNeg",
-    ("pow", 1): "Float.pow",
     ("call", 1): "Rs.fn_call",
 }
+# inherent std methods of the primitive types, called inside `impl … for i64 / f64` on `(*self)` (or on `self` with a name
+# the impl's trait does not define): (primitive, name, arity) -> Lean function (Prelude `Rs.i64_*`: Int range arithmetic
+# on Int64.toInt; f64: Lean `Float` / the libm bindings of Model/F64.lean)
+PRIM_METHODS = {
+    ("i64", "checked_add", 1): "Rs.i64_checked_add", ("i64", "checked_sub", 1): "Rs.i64_checked_sub",
+    ("i64", "checked_mul", 1): "Rs.i64_checked_mul", ("i64", "checked_div", 1): "Rs.i64_checked_div",
+    ("i64", "checked_rem", 1): "Rs.i64_checked_rem", ("i64", "checked_neg", 0): "Rs.i64_checked_neg",
+    ("i64", "checked_abs", 0): "Rs.i64_checked_abs",
+    ("f64", "powf", 1): "Float.pow", ("f64", "ln", 0): "Float.log", ("f64", "log", 1): "Evalexpr.F64.logBase",
+    ("f64", "log2", 0): "Float.log2", ("f64", "log10", 0): "Float.log10", ("f64", "exp", 0): "Float.exp",
+    ("f64", "exp2", 0): "Float.exp2", ("f64", "cos", 0): "Float.cos", ("f64", "cosh", 0): "Float.cosh",
+    ("f64", "acos", 0): "Float.acos", ("f64", "acosh", 0): "Evalexpr.F64.acosh", ("f64", "sin", 0): "Float.sin",
+    ("f64", "sinh", 0): "Float.sinh", ("f64", "asin", 0): "Float.asin", ("f64", "asinh", 0): "Evalexpr.F64.asinh",
+    ("f64", "tan", 0): "Float.tan", ("f64", "tanh", 0): "Float.tanh", ("f64", "atan", 0): "Float.atan",
+    ("f64", "atanh", 0): "Evalexpr.F64.atanh", ("f64", "atan2", 1): "Float.atan2", ("f64", "sqrt", 0): "Float.sqrt",
+    ("f64", "cbrt", 0): "Float.cbrt", ("f64", "hypot", 1): "Evalexpr.F64.hypot", ("f64", "floor", 0): "Float.floor",
+    ("f64", "round", 0): "Float.round", ("f64", "ceil", 0): "Float.ceil", ("f64", "is_nan", 0): "Evalexpr.F64.isNaN",
+    ("f64", "is_finite", 0): "Evalexpr.F64.isFinite", ("f64", "is_infinite", 0): "Evalexpr.F64.isInfinite",
+    ("f64", "is_normal", 0): "Evalexpr.F64.isNormal", ("f64", "abs", 0): "Float.abs", ("f64", "min", 1): "Evalexpr.F64.fmin",
+    ("f64", "max", 1): "Evalexpr.F64.fmax",
+}
+TRANSLATED_TRAITS = ("EvalexprInt", "EvalexprFloat", "EvalexprNumericTypes", "IterateVariablesContext")
 # free functions / associated functions, by path suffix
 BOUNDARY_PATHS = {
     ("builtin_function",): (1, "Evalexpr.builtinFunction"),
-    ("NumericTypes", "int_as_float"): (1, "Int64.toFloat"),
+    ("token", "tokenize"): (1, "Evalexpr.tokenize"),
+    ("tree", "tokens_to_operator_tree"): (1, "Evalexpr.tokensToOperatorTree"),
 }
 BOUNDARY_NOTES = [
     "`==` / `!=` on Value (derived PartialEq)            ↦ Evalexpr.Value.beq          (Prelude: Rs.PEq Value)",
@@ -1016,18 +1130,27 @@ STD_METHODS = {
     ("len", 0): ("Rs.len", None), ("is_empty", 0): ("Rs.is_empty", None), ("first", 0): ("Rs.first", None),
     ("last", 0): ("Rs.last", None), ("get", 1): ("Rs.get", None), ("unwrap_or", 1): ("Rs.unwrap_or", None),
     ("map", 1): ("Rs.map", None), ("unwrap", 0): ("Rs.unwrap", "panic"),
+    ("iter", 0): ("Rs.iter", None), ("keys", 0): ("Rs.keys", None),
+    ("map_err", 1): ("Rs.map_err", None), ("ok_or_else", 1): ("Rs.ok_or_else", None), ("try_into", 0): ("Rs.try_into", None),
 }
 STD_MUTATORS = {("push_str", 1): "Rs.push_str", ("push", 1): "Rs.push", ("clear", 0): "Rs.clear", ("insert", 2): "Rs.insert"}
 UNIT_MUTATORS = {"push_str", "push", "clear"}
-STD_PATHS = {("Vec", "new"): (0, "Rs.Vec.new"), ("String", "with_capacity"): (1, "Rs.String.with_capacity"),
+STD_PATHS = {("iter", "empty"): (0, "Rs.iter_empty"), ("Default", "default"): (0, "Rs.default"), ("From", "from"): (1, "Rs.into"),
+             ("BitAnd", "bitand"): (2, "Rs.bitand"), ("BitOr", "bitor"): (2, "Rs.bitor"), ("BitXor", "bitxor"): (2, "Rs.bitxor"),
+             ("Not", "not"): (1, "Rs.bitnot"),
+             ("Vec", "new"): (0, "Rs.Vec.new"), ("String", "with_capacity"): (1, "Rs.String.with_capacity"),
              ("String", "new"): (0, "Rs.Vec.new")}
 BINOPS = {"==": "Rs.eq", "!=": "Rs.ne", "<": "Rs.lt", "<=": "Rs.le", ">": "Rs.gt", ">=": "Rs.ge",
           "+": "Rs.add", "-": "Rs.sub", "*": "Rs.mul", "/": "Rs.div", "%": "Rs.rem"}
 
 # source file -> generated module (in dependency order)
-MODULES = [("function/mod.rs", "FnError"), ("error/mod.rs", "FnError"), ("value/value_type.rs", "FnValue"), ("value/mod.rs", "FnValue"),
-           ("operator/mod.rs", "FnOperator"), ("tree/mod.rs", "FnTree"), ("context/mod.rs", "FnContext")]
-MODULE_ORDER = ["FnError", "FnValue", "FnOperator", "FnTree", "FnContext"]
+MODULES = [("value/value_type.rs", "FnValueType"), ("error/mod.rs", "FnError"), ("value/mod.rs", "FnValue"),
+           ("value/numeric_types/default_numeric_types.rs", "FnNumeric"), ("context/mod.rs", "FnContext"),
+           ("operator/mod.rs", "FnOperator"), ("tree/mod.rs", "FnTree"), ("interface/mod.rs", "FnInterface")]
+# finer than per file where the call graph needs it: `impl EvalexprNumericTypes for DefaultNumericTypes` (the casts) is used by
+# value/mod.rs, whose `Value::from_int` is used by the `impl EvalexprInt for i64` of the same file
+MODULE_OVERRIDES = {("value/numeric_types/default_numeric_types.rs", "DefaultNumericTypes"): "FnNumericTypes"}
+MODULE_ORDER = ["FnValueType", "FnNumericTypes", "FnError", "FnValue", "FnNumeric", "FnContext", "FnOperator", "FnTree", "FnInterface"]
 
 
 # =============================================================================== the translator
@@ -1044,6 +1167,8 @@ class GenFn:
         self.done = False
         self.recursive = False
         self.instance = None
+        # free functions are referenced through the namespace, so that a method of the same name cannot capture them
+        self.ref_name = lean_name if "." in lean_name else "Gen." + lean_name
 
 
 class World:
@@ -1097,6 +1222,8 @@ class World:
         return res
 
     def module_of(self, item):
+        if (item.file, item.impl_type) in MODULE_OVERRIDES:
+            return MODULE_OVERRIDES[(item.file, item.impl_type)]
         for f, m in MODULES:
             if f == item.file:
                 return m
@@ -1115,8 +1242,10 @@ class World:
             raise Untranslatable("signature: " + item.sig_error, item.where)
         owner = item.impl_type
         if item.impl_trait == "From":
-            lean_name = f"{owner}.from_{type_head(item.trait_args[0])}"
-        elif item.impl_trait not in (None, "<trait>", "Context", "ContextWithMutableVariables", "ContextWithMutableFunctions"):
+            lean_name = f"{owner}.from_{from_desc(item.trait_args[0])[1]}"
+        elif item.impl_trait == "Default" and item.name == "default":
+            lean_name = f"{owner}.default"
+        elif item.impl_trait not in (None, "<trait>", "Context", "ContextWithMutableVariables", "ContextWithMutableFunctions") + TRANSLATED_TRAITS:
             raise Untranslatable(f"method of `impl {item.impl_trait} for {owner}`", item.where)
         else:
             lean_name = (owner + "." if owner else "") + lname(item.name)
@@ -1138,6 +1267,9 @@ class FnTr:
         self.frames = []
         self.globs = []           # enums whose variants are in scope through `use Enum::*`
         self.ctx_name = None
+        self.div = []             # per open block: does it end with `return`?
+        self.entry_refs = {}      # local name -> (field of self, key term): `&mut` into a map entry obtained by get_mut
+        self.dead_refs = set()
         self.attach = False       # loops run over `List.attach` (membership proofs for the termination of a recursive fn)
         self.nloops = 0
 
@@ -1176,8 +1308,15 @@ class FnTr:
             return "(" + s + ")"
         segs = ty.segs
         name, args = segs[-1]
+        if len(segs) == 2 and segs[0][0] == "<qself>":
+            if name in ("Int", "Float") and type_head(segs[0][1][0]) in ("NumericTypes", "DefaultNumericTypes"):
+                return TYPE_MAP[name]
+            self.fail("qualified type <… as …>::" + name)
         if len(segs) == 2 and segs[0][0] in ("NumericTypes", "Self", "C") and name in ("Int", "Float"):
             return TYPE_MAP[name]
+        if len(segs) == 2 and segs[0][0] == "Self" and name in ASSOC_TYPE_MAP:
+            s_ = ASSOC_TYPE_MAP[name]
+            return "(" + s_ + ")" if paren else s_
         if len(segs) == 2 and name == "NumericTypes":
             self.fail("type " + name)
         if len(segs) > 1 and segs[0][0] not in ("crate", "self", "super", "std"):
@@ -1446,7 +1585,11 @@ class FnTr:
         return self.with_args([e.l, e.r], lambda a: App(BINOPS[e.op], a))
 
     def e_cast(self, e):
-        self.fail("`as` cast")
+        # `x as T`: the numeric conversion fixed by the two types (Prelude class `Rs.Cast`)
+        ty = self.ltype(e.ty, False)
+        if ty not in ("Float", "Int64", "UInt64", "UInt32"):
+            self.fail("`as` cast to " + ty)
+        return self.with_args([e.e], lambda a: Atom("(" + render(App("Rs.cast", a), 0) + " : " + ty + ")"))
 
     def e_try(self, e):
         self.need_res("`?`")
@@ -1491,7 +1634,7 @@ class FnTr:
         self.fail("macro " + e.name + "!")
 
     def e_closure(self, e):
-        names = []
+        names, extra = [], []
         for p in e.params:
             if p.kind == "pwild":
                 names.append("_")
@@ -1499,20 +1642,32 @@ class FnTr:
                 names.append(lname(p.segs[0]))
             elif p.kind == "pident":
                 names.append(lname(p.name))
+            elif p.kind == "ptuple" and self.irrefutable(p):
+                bound = []
+                names.append(self.pat(p, bound))
+                extra += bound
             else:
                 self.fail("closure parameter pattern")
-        self.push([n for n in names if n != "_"])
+        self.push([n for n in names if n != "_" and not n.startswith("(")] + extra)
         body = self.expr(e.body)
         self.pop()
         if body.eff:
             self.fail("closure with `?` / `return` / panic / context access in its body")
-        return Lam(names, body)
+        return Lam(names if names else ["(_ : Unit)"], body)
 
     def e_structlit(self, e):
         v = self.variant(e.segs)
-        if not v:
+        sname = self.item.impl_type if e.segs == ["Self"] else e.segs[-1]
+        if not v and sname in STRUCT_MAP:
+            lean, fields = STRUCT_MAP[sname]
+            decl = [st[sname] for st in STRUCTS.values() if sname in st]
+            if decl != [fields]:
+                self.fail(f"struct {sname}: declared fields {decl}, struct table has {fields}")
+            v, kind = (sname, "<struct>"), "struct"
+        elif not v:
             self.fail("struct literal " + "::".join(e.segs))
-        lean, kind, fields = ENUM_MAP[v[0]][v[1]]
+        else:
+            lean, kind, fields = ENUM_MAP[v[0]][v[1]]
         if kind != "struct":
             self.fail(f"{v[0]}::{v[1]} is not a struct variant")
         given = dict(e.fields)
@@ -1536,6 +1691,8 @@ class FnTr:
             if self.is_local(name):
                 if self.g.is_ctx and name == self.g.ctx_param and not self.is_shadowed_ctx():
                     self.fail("the context parameter used as a value")
+                if name in self.dead_refs:
+                    self.fail(f"`{name}` (a reference into a map entry) is used after the entry was assigned through it")
                 return Atom(lname(name))
             if name == "None":
                 return Atom("none")
@@ -1547,13 +1704,28 @@ class FnTr:
             if kind == "struct":
                 self.fail(f"struct variant {v[0]}::{v[1]} used as a value")
             return Atom(lean)     # unit variant, or a tuple variant used as a function
+        if len(segs) == 1 and segs[0].isupper():
+            # a `const` item of the crate: its initialiser, translated in place
+            found = [(f, c[segs[0]]) for f, c in CONSTS.items() if segs[0] in c]
+            if len(found) == 1:
+                p = Parser(found[0][1], found[0][0] + "::const " + segs[0])
+                init = p.expr()
+                if not p.eof():
+                    self.fail("const initialiser of " + segs[0])
+                saved = self.frames
+                self.frames = [set()]
+                n = self.expr(init)
+                self.frames = saved
+                if n.eff:
+                    self.fail("const initialiser with effects")
+                return n
         f = self.resolve_path_fn(segs, None)
         if f is None:
             self.fail("unresolved path " + "::".join(segs))
         kind, lean, g = f
         if kind == "gen" and g.is_ctx:
             self.fail("a context function used as a value")
-        return Atom(lean)
+        return Atom(g.ref_name if kind == "gen" else lean)
 
     def resolve_path_fn(self, segs, nargs):
         """('std'|'boundary'|'gen', lean name, GenFn|None) for a function path"""
@@ -1567,8 +1739,10 @@ class FnTr:
                 return "boundary", lean, None
         if len(segs) >= 2 and (segs[-2] == "Self" or segs[-2][0].isupper()):
             owner = self.item.impl_type if segs[-2] == "Self" else segs[-2]
+            if owner == "NumericTypes":
+                owner = "DefaultNumericTypes"      # the generic parameter is fixed to the default numeric types
             cands = [it for it in self.w.items if it.impl_type == owner and it.name == segs[-1] and it.self_kind is None
-                     and it.impl_trait in (None,)]
+                     and it.impl_trait in (None,) + TRANSLATED_TRAITS]
             if len(cands) == 1:
                 g = self.w.require(cands[0])
                 self.g.deps.append(g)
@@ -1590,16 +1764,22 @@ class FnTr:
         exprs = list(args)
         if len(exprs) != len(g.item.params):
             self.fail(f"arity of the call to {g.lean_name}")
+        fresh = None
         if g.is_ctx:
-            if not self.g.is_ctx:
-                self.fail(f"call of the context function {g.lean_name} from a function without a context parameter")
             c = exprs.pop(g.ctx_index)
             if not self.is_ctx_expr(c):
-                self.fail(f"the context argument of {g.lean_name} is not the context parameter")
+                # a temporary context built in place (`&mut HashMapContext::new()`): the callee runs on a state of its own
+                if c.kind == "ref" and c.e.kind == "call":
+                    fresh = c.e
+                else:
+                    self.fail(f"the context argument of {g.lean_name} is neither the context parameter nor a temporary built in place")
+            elif not self.g.is_ctx:
+                self.fail(f"call of the context function {g.lean_name} from a function without a context parameter")
         allx = ([recv] if recv is not None else []) + exprs
-        name = g.lean_name
-        if "." not in name and self.is_local(name):
-            self.fail(f"the local variable `{name}` shadows the translated function of the same name")
+        name = g.ref_name
+        if fresh is not None:
+            return self.with_args([fresh] + allx, lambda a: App("Rs.call_fresh", [a[0], App(name, a[1:])]))
+
         if g.is_ctx:
             return self.with_args(allx, lambda a: App("Rs.call", [App(name, a)], eff=True, ctx=True))
         return self.with_args(allx, lambda a: App(name, a))
@@ -1623,6 +1803,10 @@ class FnTr:
             if kind != "tuple" or len(fields) != n:
                 self.fail(f"constructor call shape of {v[0]}::{v[1]}")
             return self.with_args(e.args, lambda a: App(lean, a))
+        if len(segs) == 2 and segs[1] == "from" and n == 1 and segs[0] in TYPE_MAP:
+            # `T::from(x)`: the `From` conversion into T (same instances as `.into()`), the target type made explicit
+            ty = TYPE_MAP[segs[0]]
+            return self.with_args(e.args, lambda a: Atom("(" + render(App("Rs.into", a), 0) + " : " + ty + ")"))
         r = self.resolve_path_fn(segs, n)
         if r is None:
             self.fail("unresolved function " + "::".join(segs))
@@ -1645,6 +1829,20 @@ class FnTr:
             return self.with_args(e.args, lambda a: App(head, a, eff=True, ctx=True))
         if (name, n) in STD_MUTATORS:
             self.fail(f"`{name}` (a mutation) in expression position")
+        prim = self.item.impl_type if self.item.impl_type in ("i64", "f64") else None
+        if prim:
+            r = e.recv
+            while r.kind == "paren":
+                r = r.e
+            on_value = r.kind == "unary" and r.op == "*" and r.e.kind == "path" and r.e.segs == ["self"]
+            in_trait = any(it.name == name and it.impl_type == prim and it.impl_trait == self.item.impl_trait for it in self.w.items)
+            on_self = r.kind == "path" and r.segs == ["self"] and not in_trait
+            if on_value or on_self:
+                # Rust's method lookup: on a receiver of the primitive type itself (`(*self)`) the inherent std method is found
+                # before the trait's; on `self: &prim` a name the trait does not define can only be the std one
+                if (prim, name, n) not in PRIM_METHODS:
+                    self.fail(f"std method `{prim}::{name}`/{n} is not in the table of primitive methods")
+                return self.with_args([e.recv] + e.args, lambda a: App(PRIM_METHODS[(prim, name, n)], a))
         crate = [it for it in self.w.items if it.name == name and it.self_kind is not None and len(it.params) == n]
         if (name, n) in STD_METHODS:
             head, effect = STD_METHODS[(name, n)]
@@ -1656,7 +1854,7 @@ class FnTr:
             head = BOUNDARY_METHODS[(name, n)]
             return self.with_args([e.recv] + e.args, lambda a: App(head, a))
         # crate methods: inherent and trait-default ones; must be unique by (name, arity)
-        cands = [it for it in crate if it.impl_trait in (None,)]
+        cands = [it for it in crate if it.impl_trait in (None,) + TRANSLATED_TRAITS]
         if len(cands) == 1 and cands[0].self_kind == "&mut":
             self.fail(f"`&mut self` method `{name}` called in expression position")
         if len(cands) == 1:
@@ -1710,9 +1908,37 @@ class FnTr:
             arms.append(N("arm", pat=N("pwild"), guard=None, body=e.els if e.els is not None else N("tuple", items=[])))
         return self.e_match(N("match", scrut=e.scrut, arms=arms))
 
+    def get_mut_scrutinee(self, e):
+        """`self.<field>.get_mut(key)` as the scrutinee of `if let Some(r) = …` / `match`: (field, key term) or None"""
+        sc = e.scrut
+        while sc.kind == "paren":
+            sc = sc.e
+        if not (sc.kind == "mcall" and sc.name == "get_mut" and len(sc.args) == 1):
+            return None
+        fld = self.self_field(sc.recv)
+        if not (self.g.mut_self and fld):
+            self.fail("`get_mut` on something that is not a map field of `&mut self`")
+        k = sc.args[0]
+        while k.kind in ("ref", "paren"):
+            k = k.e
+        if not (k.kind == "path" and len(k.segs) == 1 and self.is_local(k.segs[0])):
+            self.fail("`get_mut` with a key that is not a local variable")
+        for a in e.arms:
+            p = a.pat
+            ok = (p.kind == "ptuplestruct" and p.segs == ["Some"] and len(p.items) == 1 and self.irrefutable(p.items[0])
+                  and p.items[0].kind in ("ppath", "pident")) or p.kind == "pwild" or (p.kind == "ppath" and p.segs == ["None"])
+            if not ok or a.guard is not None:
+                self.fail("`get_mut` must be matched by `Some(r)` / `None` / `_` arms")
+        return fld, Atom(lname(k.segs[0]))
+
     def e_match(self, e):
         stmts = []
-        s = self.atomize(e.scrut, stmts)
+        gm = self.get_mut_scrutinee(e)
+        if gm is not None:
+            # the reference is read as the current value of the entry; writes through it are `insert`s (see self_stmt)
+            s = App("Rs.get", [App(FIELD_MAP[(self.item.impl_type, gm[0])], [Atom("self")]), gm[1]])
+        else:
+            s = self.atomize(e.scrut, stmts)
         if not is_simple(s) and any(a.guard is not None for a in e.arms):
             t = self.temp()
             stmts.append(("let", t, s))
@@ -1722,8 +1948,13 @@ class FnTr:
             bound = []
             pats = self.pats(a.pat, bound)
             self.push(bound)
+            saved_refs = dict(self.entry_refs)
+            if gm is not None:
+                for b in bound:
+                    self.entry_refs[b] = gm
             guard = self.expr(a.guard) if a.guard is not None else None
             body = self.expr(a.body)
+            self.entry_refs = saved_refs
             self.pop()
             arms.append((pats, guard, body, self.irrefutable(a.pat)))
         return mkseq(stmts, self.build_match(s, arms))
@@ -1761,6 +1992,9 @@ class FnTr:
     # ---- blocks and statements
     def block(self, b):
         self.push()
+        last = b.tail if b.tail is not None else (b.stmts[-1].e if b.stmts and b.stmts[-1].kind == "exprstmt" else None)
+        self.div.append(last is not None and last.kind == "return")
+        saved_refs, saved_dead = dict(self.entry_refs), set(self.dead_refs)
         saved_globs = list(self.globs)
         stmts = []
         for st in b.stmts:
@@ -1772,6 +2006,9 @@ class FnTr:
             tail = None
         final = self.expr(tail) if tail is not None else Tup([])
         self.globs = saved_globs
+        if self.div.pop():
+            # control does not leave a block that ends with `return`: what it did to the references is not visible after it
+            self.entry_refs, self.dead_refs = saved_refs, saved_dead
         self.pop()
         return mkseq(stmts, final)
 
@@ -1844,9 +2081,23 @@ class FnTr:
     def self_stmt(self, e, stmts):
         """statements that change `*self` in a `&mut self` method; only directly in the body block"""
         def check_level():
-            if len(self.frames) != 2:
-                self.fail("`self` is changed from a nested block / branch (the rebinding would not escape)")
+            # directly in the body block, or in a block that ends with `return` (which carries the current `self`)
+            if len(self.frames) != 2 and not (self.div and self.div[-1]):
+                self.fail("`self` is changed from a nested block / branch that can fall through (the rebinding would not escape)")
         owner = self.item.impl_type
+        if (e.kind == "assign" and e.op == "=" and e.lhs.kind == "unary" and e.lhs.op == "*" and e.lhs.e.kind == "path"
+                and len(e.lhs.e.segs) == 1 and e.lhs.e.segs[0] in self.entry_refs):
+            # `*r = v` with `r` the `&mut` into the entry of `key` obtained from `self.<field>.get_mut(key)`:
+            # the map with the entry of `key` replaced, i.e. `insert(key, v)`; `r` must not be used afterwards
+            check_level()
+            r = e.lhs.e.segs[0]
+            fld, key = self.entry_refs.pop(r)
+            self.dead_refs.add(r)
+            f = FIELD_UPDATE[(owner, fld)]
+            cur = App(FIELD_MAP[(owner, fld)], [Atom("self")])
+            n = self.with_args([e.rhs], lambda a: Atom("{ self with " + f + " := " + render(App("Rs.insert", [cur, key] + a), 0) + " }"))
+            stmts.extend(bind_stmts("self", n))
+            return True
         if e.kind == "assign" and e.op == "=" and self.self_field(e.lhs):
             check_level()
             f = FIELD_UPDATE[(owner, self.self_field(e.lhs))]
@@ -1952,7 +2203,7 @@ class FnTr:
             self.fail("context access in a function without a context parameter")
         params = "".join(f" ({n} : {t})" for n, t in g.params)
         owner = (it.impl_type + "::") if it.impl_type else ""
-        trait = f" (impl {it.impl_trait}<{type_head(it.trait_args[0])}>)" if it.impl_trait == "From" else ""
+        trait = f" (impl {it.impl_trait}<{from_desc(it.trait_args[0])[0]}>)" if it.impl_trait == "From" else ""
         doc = f"/-- `{owner}{it.name}`{trait} — src/{it.file} -/\n"
         term = ""
         if g.recursive:
@@ -1975,9 +2226,11 @@ class FnTr:
             head = f"def {g.lean_name}{params} : {g.ret} :=\n  "
             text = doc + head + render(node, 2, False)
         g.text = text + "\n" + term
-        if it.impl_trait == "From":
+        if it.impl_trait == "From" and getattr(it, "from_instance", True):
             src_t = self.ltype(it.trait_args[0], True)
             g.instance = f"instance : Rs.Into {src_t} {TYPE_MAP[it.impl_type]} := ⟨{g.lean_name}⟩\n"
+        if it.impl_trait == "Default":
+            g.instance = f"instance : Rs.Default {TYPE_MAP[it.impl_type]} := ⟨{g.lean_name}⟩\n"
 
 
 def is_flat(n):
@@ -2014,19 +2267,38 @@ ROOTS = [
     ("value/mod.rs", "Value", "as_number"), ("value/mod.rs", "Value", "as_boolean"), ("value/mod.rs", "Value", "as_tuple"),
     ("value/mod.rs", "Value", "as_fixed_len_tuple"), ("value/mod.rs", "Value", "as_empty"),
     ("tree/mod.rs", "Node", "eval_with_context"), ("tree/mod.rs", "Node", "eval_with_context_mut"),
-] + [("context/mod.rs", owner, n) for owner in ("EmptyContext", "EmptyContextWithBuiltinFunctions", "HashMapContext")
-     for n in ("get_value", "call_function", "are_builtin_functions_disabled", "set_builtin_functions_disabled")] + [
+] + [("tree/mod.rs", "Node", "eval")] + [("tree/mod.rs", "Node", f"eval_{k}{m}") for m in ("_with_context", "_with_context_mut", "")
+       for k in ("string", "int", "float", "number", "boolean", "tuple", "empty")] + [
+    ("interface/mod.rs", None, n) for n in ("eval_with_context", "eval_with_context_mut", "eval", "build_operator_tree")] + [
+    ("interface/mod.rs", None, f"eval_{k}{m}") for m in ("_with_context", "_with_context_mut", "")
+    for k in ("string", "int", "float", "number", "boolean", "tuple", "empty")] + [
+    ("context/mod.rs", "HashMapContext", "new"), ("context/mod.rs", "HashMapContext", "set_value"),
+    ("context/mod.rs", "ContextWithMutableVariables", "set_value"), ("context/mod.rs", "ContextWithMutableFunctions", "set_function"),
+    ("error/mod.rs", "EvalexprError", "expected_type"),
+] + [("value/numeric_types/default_numeric_types.rs", "i64", n) for n in ['checked_add', 'checked_sub', 'checked_neg', 'checked_mul', 'checked_div', 'checked_rem', 'abs', 'bitand', 'bitor', 'bitxor', 'bitnot', 'from_usize', 'into_usize']] + [
+    ("value/numeric_types/default_numeric_types.rs", "f64", n) for n in ['pow', 'ln', 'log', 'log2', 'log10', 'exp', 'exp2', 'cos', 'cosh', 'acos', 'acosh', 'sin', 'sinh', 'asin', 'asinh', 'tan', 'tanh', 'atan', 'atanh', 'atan2', 'sqrt', 'cbrt', 'hypot', 'floor', 'round', 'ceil', 'is_nan', 'is_finite', 'is_infinite', 'is_normal', 'abs', 'min', 'max']] + [
+    ("value/numeric_types/default_numeric_types.rs", "DefaultNumericTypes", n) for n in ("int_as_float", "float_as_int")] + [("context/mod.rs", owner, n) for owner in ("EmptyContext", "EmptyContextWithBuiltinFunctions", "HashMapContext")
+     for n in ("get_value", "call_function", "are_builtin_functions_disabled", "set_builtin_functions_disabled",
+               "iter_variables", "iter_variable_names")] + [
     ("context/mod.rs", "HashMapContext", "set_function"), ("context/mod.rs", "HashMapContext", "clear_variables"),
     ("context/mod.rs", "HashMapContext", "clear_functions"), ("context/mod.rs", "HashMapContext", "clear"),
 ] + [("error/mod.rs", "EvalexprError", n) for n in (
     # the error constructor functions the agreement proofs name (kept as roots so that a body which stops calling one still checks)
     "wrong_operator_argument_amount", "wrong_type_combination", "expected_string", "expected_int", "expected_float",
     "expected_number", "expected_number_or_string", "expected_boolean", "expected_tuple", "expected_fixed_len_tuple",
-    "expected_empty")]
+    "expected_empty", "addition_error", "subtraction_error", "negation_error", "multiplication_error", "division_error",
+    "modulation_error")] + [("value/mod.rs", "Value", "from_int"), ("value/mod.rs", "Value", "from_float")]
 # `impl From<A> for B` blocks that give `.into()` its meaning: (file, A, B); translated BEFORE the roots
+# `impl Default for T` blocks that give `Default::default()` its meaning at T: (file, T); translated before the roots
+DEFAULT_IMPLS = [("context/mod.rs", "HashMapContext")]
+# (file, source type as written, target, register as the `Rs.Into` instance?). References are erased by the translation, so
+# the three `From<&Value>`, `From<&mut Value>`, `From<&&mut Value>` impls have the same Lean type: the first one is the
+# instance, the other two are translated as plain functions (and proved equal to the same Model function).
 FROM_IMPLS = [
-    ("value/mod.rs", "String", "Value"),
-    ("value/value_type.rs", "Value", "ValueType"),
+    ("value/mod.rs", "String", "Value", True),
+    ("value/value_type.rs", "&Value", "ValueType", True),
+    ("value/value_type.rs", "&mut Value", "ValueType", False),
+    ("value/value_type.rs", "&&mut Value", "ValueType", False),
 ]
 
 
@@ -2040,13 +2312,27 @@ def header(module, imports):
         lines.append(f"       context.{name}/{n}  ↦ {lean} = {doc}")
     lines.append("   * trait / foreign methods, by (name, arity):")
     for (name, n), lean in BOUNDARY_METHODS.items():
-        lines.append(f"       .{name}/{n}  ↦ {lean}")
+        lines.append(f"       .{name}/{n}  ↦ {lean}" + ("   (Function::call: Builtin.call for a builtin, application for a user function)" if name == "call" else ""))
+    lines.append("   * inherent std methods of i64 / f64 (called on `(*self)` inside `impl EvalexprInt for i64` / `impl EvalexprFloat for f64`):")
+    row = []
+    for (prim, name, n), lean in PRIM_METHODS.items():
+        row.append(f"{prim}::{name}/{n} ↦ {lean}")
+        if len(row) == 3:
+            lines.append("       " + ";  ".join(row))
+            row = []
+    if row:
+        lines.append("       " + ";  ".join(row))
+    lines.append("     `x as T` on numbers ↦ Rs.cast (Int64.toFloat, Float.toInt64, Int64.toUInt64);  usize/u64 `try_into` ↦ Rs.try_into (range check)")
     lines.append("   * functions:")
     for path, (n, lean) in BOUNDARY_PATHS.items():
         lines.append(f"       {'::'.join(path)}/{n}  ↦ {lean}")
     lines.append("   * operators on primitive types:")
     for nline in BOUNDARY_NOTES:
         lines.append("       " + nline)
+    lines.append("   * state: a context built in place (`&mut HashMapContext::new()`) passed as the context argument ↦ Rs.call_fresh: the callee runs")
+    lines.append("     on the state { ctx := .hashMap h, log := [] }, result only (Model: St.fresh / Mode.fresh);")
+    lines.append("     HashMap<String, T> ↦ association list (get ↦ alookup, insert ↦ ainsert, clear ↦ []; `*r = v` through the `r` of")
+    lines.append("     `if let Some(r) = self.<map>.get_mut(key)` ↦ insert key v); iterators ↦ the list of their items (map order = list order)")
     lines.append("   * data: Rust enums Value, ValueType, Operator, EvalexprError ↦ Model inductives Value, ValueType, Operator, Err")
     lines.append("     (constructor table ENUM_MAP of translate_fn.py, checked against the enum declarations on every run);")
     lines.append("     usize ↦ Nat, String/&str ↦ Str, NumericTypes::Int ↦ Int64, NumericTypes::Float ↦ Float, Vec<T>/&[T] ↦ List T,")
@@ -2070,15 +2356,21 @@ def write_if_changed(path, text):
 
 def run():
     w = World()
-    for file, a, b in FROM_IMPLS:
+    for file, a, b, inst in FROM_IMPLS:
         c = [it for it in w.items if it.file == file and it.impl_trait == "From" and it.impl_type == b and it.name == "from"
-             and it.trait_args and type_head(it.trait_args[0]) == a
-             and not (it.trait_args[0].kind == "tref" and (it.trait_args[0].mut or it.trait_args[0].inner.kind == "tref"))]
+             and it.trait_args and from_desc(it.trait_args[0])[0] == a]
         if len(c) != 1:
             raise Untranslatable(f"impl From<{a}> for {b}: {len(c)} candidates", file)
+        c[0].from_instance = inst
+        w.require(c[0])
+    for file, owner in DEFAULT_IMPLS:
+        c = [it for it in w.items if it.file == file and it.impl_trait == "Default" and it.impl_type == owner and it.name == "default"]
+        if len(c) != 1:
+            raise Untranslatable(f"impl Default for {owner}: {len(c)} candidates", file)
         w.require(c[0])
     for file, owner, name in ROOTS:
-        c = [it for it in w.find(file, owner, name) if it.impl_trait in (None, "Context", "ContextWithMutableVariables", "ContextWithMutableFunctions")]
+        c = [it for it in w.find(file, owner, name)
+             if it.impl_trait in (None, "<trait>", "Context", "ContextWithMutableVariables", "ContextWithMutableFunctions") + TRANSLATED_TRAITS]
         if len(c) != 1:
             raise Untranslatable(f"{len(c)} items named {name}", f"{file}::{(owner + '::') if owner else ''}{name}")
         w.require(c[0])
@@ -2100,8 +2392,8 @@ def run():
         if not by_mod[m]:
             continue
         need = {d.module for g in by_mod[m] for d in g.deps if d.module != m}
-        if any("Rs.into" in g.text for g in by_mod[m]):
-            need |= {g.module for g in w.order if g.instance and g.module != m}
+        if any("Rs.into" in g.text or "Rs.default" in g.text for g in by_mod[m]):
+            need |= {g.module for g in w.order if g.instance and g.module != m and MODULE_ORDER.index(g.module) < MODULE_ORDER.index(m)}
         imports = "import EvalexprVerif.Translate.Prelude\n" + "".join(f"import EvalexprVerif.Generated.{x}\n" for x in prev if x in need)
         body = []
         for g in by_mod[m]:
